@@ -152,8 +152,6 @@ def run(ctx):
     ctx.rule("R1.map", "ncmpii_error_mpi2nc returns a non-zero constant on every path")
     ctx.assume("NC error codes are negative: an MPI_MIN reduction of a failing status is failing on every rank")
     ctx.assume("MPI communication calls and allocations succeed (assume_alloc_ok); only file I/O faults are injected")
-    ctx.assume("zero-length participation calls (literal NULL buffer, literal 0 count) transfer no data of the "
-               "calling process and are reported as informational, not as violations")
     ctx.assume("faults inside MPI_File_open/close/set_view/set_size/delete are not reads, writes or syncs and are "
                "not injected")
     groups = ["lib"] if ctx.tier == "quick" else ["lib", "bb"]
@@ -188,10 +186,9 @@ def run(ctx):
         sid = site_id(fn, c, allc)
         ioerr.add(fn.name)
         if is_zero_length_participation(c):
-            info.append("%s %s (line %s): zero-length participation, result not required to propagate"
-                        % (fn.name, sid, c.get("l")))
-            ctx.instance("R1.site", "%s:%s" % (fn.name, sid))
-            continue
+            # a collective call joined with a zero-length request can still report the failure of the collective on this
+            # process (an aggregator writes other processes' data): its result has to reach the caller like any other
+            info.append("%s %s (line %s): zero-length participation" % (fn.name, sid, c.get("l")))
         check_site(ctx, fn, c, "R1.site", sid, c["fn"])
     ctx.min_instances("R1.site", 28)
     for s in info:
